@@ -435,3 +435,118 @@ Proof.
     unfold bw_blocked, bw_exited in H. destruct (bw_pc w); cbn; auto; try (destruct H; discriminate).
     destruct ph; auto; destruct H; discriminate.
 Qed.
+
+(* ------------------------------------------------------------------ C23: what gets recorded *)
+Definition eff_stat_ok (e : eff) : Prop :=
+  match e with ECur (LRecordStat st) => skipped_zero st = true | _ => True end.
+
+Lemma blk_stat_ok mk f i st :
+  blk_stat mk f i = Some st -> (forall a b c d, skipped_zero (mk a b c d) = true) -> skipped_zero st = true.
+Proof. unfold blk_stat. destruct (nth_error (f_blocks f) i); [|discriminate]. intros H K. injection H as <-. apply K. Qed.
+
+Lemma fw_local_stat_ok e r sd w v w' effs : fw_local e r sd w v = Some (w', effs) -> Forall eff_stat_ok effs.
+Proof.
+  intros H. destruct w as [pc held owes]. unfold fw_local in H. cbn [fw_pc fw_held fw_owes] in H.
+  destruct pc; destruct v; try discriminate H; destr_in H; injection H as <- <-;
+    try (apply Forall_forall; intros x Hx; apply in_map_iff in Hx; destruct Hx as [? [<- _]]; exact I);
+    repeat constructor; cbn; auto;
+    eapply blk_stat_ok; try eassumption; reflexivity.
+Qed.
+
+Lemma bw_local_stat_ok e r sd w v w' effs : bw_local e r sd w v = Some (w', effs) -> Forall eff_stat_ok effs.
+Proof.
+  intros H. destruct w as [pc held owes]. unfold bw_local in H. cbn [bw_pc bw_held bw_owes] in H.
+  destruct pc; destruct v; try discriminate H; destr_in H; injection H as <- <-; repeat constructor; cbn; auto.
+Qed.
+
+Definition stats_ok (q : qstate) : Prop := forallb skipped_zero (m_stats (c_m (q_cur q))) = true.
+
+Lemma cursor_stats_step fx s l s' :
+  cursor_step fx s l = Some s' ->
+  m_stats (c_m s') = m_stats (c_m s) \/ exists st, l = LRecordStat st /\ m_stats (c_m s') = m_stats (c_m s) ++ [st].
+Proof.
+  intros H. destr_cur s. cbn in *.
+  destruct l; step_cases H; norm_hyps; cbn in *; auto. right. eexists. split; reflexivity.
+Qed.
+
+Lemma apply_effs_stats_ok fx cap es : forall u q u' q',
+  apply_effs fx cap (u, q) es = Some (u', q') -> Forall eff_stat_ok es -> stats_ok q -> stats_ok q'.
+Proof.
+  induction es as [|e t IH]; intros u q u' q' H F S; cbn [apply_effs] in H.
+  - injection H as <- <-. exact S.
+  - destruct (apply_eff fx cap (u, q) e) as [[u1 q1]|] eqn:E; [|discriminate]. inversion F as [|? ? Fe Ft]; subst.
+    apply (IH _ _ _ _ H Ft). unfold stats_ok in *.
+    destruct e; eff_cases E; cbn; auto.
+    destruct (cursor_stats_step _ _ _ _ Heqo) as [-> | [st [-> ->]]]; auto.
+    rewrite forallb_app, S. cbn. cbn in Fe. rewrite Fe. reflexivity.
+Qed.
+
+Lemma act_stats_ok fx cap u q a v u' q' : act_step fx cap u q a v = Some (u', q') -> stats_ok q -> stats_ok q'.
+Proof.
+  intros H S. unfold act_step in H. destruct a.
+  - destruct (fs_local cap (length (q_fws q)) (q_fs q) v) as [[pc effs]|] eqn:L; [|discriminate].
+    eapply apply_effs_stats_ok; [exact H| |exact S].
+    unfold fs_local in L. destruct (q_fs q); destruct v; try discriminate L; destr_in L; injection L as <- <-; repeat constructor; cbn; auto.
+  - destruct (nth_error (q_fws q) i) as [w|]; [|discriminate].
+    destruct (fw_step (q_env q) (2 * i) i w v) as [[w' effs]|] eqn:L; [|discriminate].
+    eapply apply_effs_stats_ok; [exact H| |exact S]. unfold fw_step in L.
+    destruct v; try (destruct (fw_local _ _ _ w _) as [[w1 e1]|] eqn:L1; [|discriminate]; injection L as <- <-;
+      pose proof (fw_local_stat_ok _ _ _ _ _ _ _ L1); destruct (fw_owes w); auto; constructor; cbn; auto; fail).
+    destruct (fw_owes w); [|discriminate]. injection L as <- <-. repeat constructor.
+  - destruct (nth_error (q_bws q) j) as [w|]; [|discriminate].
+    destruct (bw_step (q_env q) (2 * j + 1) j w v) as [[w' effs]|] eqn:L; [|discriminate].
+    eapply apply_effs_stats_ok; [exact H| |exact S]. unfold bw_step in L.
+    destruct v; try (destruct (bw_local _ _ _ w _) as [[w1 e1]|] eqn:L1; [|discriminate]; injection L as <- <-;
+      pose proof (bw_local_stat_ok _ _ _ _ _ _ _ L1); destruct (bw_owes w); auto; constructor; cbn; auto; fail).
+    destruct (bw_owes w); [|discriminate]. injection L as <- <-. repeat constructor.
+  - destruct (td_local (q_td q) v) as [[pc effs]|] eqn:L; [|discriminate].
+    eapply apply_effs_stats_ok; [exact H| |exact S].
+    destruct (q_td q); destruct v; try discriminate L; injection L as <- <-; repeat constructor.
+Qed.
+
+(* every entry Stats lists for a pruned block carries zero rows and bytes, in every reachable state *)
+Theorem stats_skipped_zero fx cap es s q :
+  reachable fx cap es s -> In q (g_qs s) -> forallb skipped_zero (m_stats (c_m (q_cur q))) = true.
+Proof.
+  intros R. revert q. induction R as [|s l s' R IH H]; intros q I.
+  - cbn in I. apply in_map_iff in I. destruct I as [ec [<- _]]. reflexivity.
+  - destruct l as [qi a v|qi cl]; cbn in H.
+    + destruct (nth_error (g_qs s) qi) as [q0|] eqn:N; [|discriminate].
+      destruct (act_step fx (g_cap s) (g_used s) q0 a v) as [[u' q']|] eqn:A; [|discriminate]. injection H as <-. cbn in I.
+      apply In_nth_error in I. destruct I as [k Hk]. rewrite nth_error_set_nth in Hk.
+      destruct (Nat.eqb_spec qi k).
+      * rewrite N in Hk. injection Hk as <-. eapply act_stats_ok; [exact A|]. apply IH. eapply nth_error_In; eassumption.
+      * apply IH. eapply nth_error_In; eassumption.
+    + destruct (external_label cl) eqn:E; [|discriminate].
+      destruct (nth_error (g_qs s) qi) as [q0|] eqn:N; [|discriminate].
+      destruct (cursor_step fx (q_cur q0) cl) as [c|] eqn:A; [|discriminate]. injection H as <-. cbn in I.
+      apply In_nth_error in I. destruct I as [k Hk]. rewrite nth_error_set_nth in Hk.
+      destruct (Nat.eqb_spec qi k).
+      * rewrite N in Hk. injection Hk as <-. cbn.
+        destruct (cursor_stats_step _ _ _ _ A) as [-> | [st [-> _]]]; [|discriminate E].
+        apply IH. eapply nth_error_In; eassumption.
+      * apply IH. eapply nth_error_In; eassumption.
+Qed.
+
+(* every query of the pipeline has a cursor and a pool reachable in the component models *)
+Theorem pipeline_cursor fx cap es s q : reachable fx cap es s -> In q (g_qs s) -> creachable fx (q_cur q).
+Proof. intros R I. exact (qi_cur _ _ _ (reachable_qinv _ _ _ _ _ R I)). Qed.
+
+Theorem pipeline_pool fx cap es s q : reachable fx cap es s -> In q (g_qs s) -> preachable (q_pool q).
+Proof. intros R I. exact (qi_pool _ _ _ (reachable_qinv _ _ _ _ _ R I)). Qed.
+
+(* the semaphore count is exactly the slots the workers of all queries hold *)
+Theorem semaphore_is_held_slots fx cap es s : reachable fx cap es s -> g_used s = sum_slots (g_qs s) /\ g_used s <= cap.
+Proof. intros R. destruct (reachable_ginv _ _ _ _ R). auto. Qed.
+
+(* a step of one query leaves every other query's state alone *)
+Theorem other_queries_untouched fx s l s' qa qb :
+  qstep fx s l = Some s' -> (match l with LAct q _ _ | LExt q _ => q end) = qa -> qa <> qb ->
+  nth_error (g_qs s') qb = nth_error (g_qs s) qb.
+Proof.
+  intros H L N. destruct l as [qi a v|qi cl]; cbn in H, L; subst qi.
+  - destruct (nth_error (g_qs s) qa); [|discriminate]. destruct (act_step _ _ _ _ _ _) as [[? ?]|]; [|discriminate].
+    injection H as <-. cbn. apply nth_error_set_nth_neq. assumption.
+  - destruct (external_label cl); [|discriminate]. destruct (nth_error (g_qs s) qa); [|discriminate].
+    destruct (cursor_step _ _ _); [|discriminate]. injection H as <-. cbn. apply nth_error_set_nth_neq. assumption.
+Qed.
